@@ -127,6 +127,14 @@ pub fn curated() -> Vec<(&'static str, Spec, bool)> {
     add("eoi_extends2", true, vec![r("[0-9]+"), r("[0-9]+;$").prio(9), t(";")]);
     add("eoi_extends3", true, vec![t("x"), r("xy(?m:$)"), t("\n"), t("y")]);
     add("eoi_extends_skip", true, vec![s("#"), r("#!$").prio(9), t("!")]);
+    // every pattern starts with the same starred group: the state after one round of the group is
+    // merged with the root, so the root is re-entered in the middle of a token (and an input can end
+    // there), or has a self-loop
+    add("root_mid_token", true, vec![r("(xy)*z")]);
+    add("root_mid_token2", true, vec![r("(ab)*c"), r("(ab)*d")]);
+    add("root_mid_token3", true, vec![r("a*b"), r("a*c")]);
+    add("root_mid_token4", true, vec![r("([0-9],)*;"), r("([0-9],)*\\.")]);
+    add("root_mid_token5", true, vec![r("(a+b)*c"), s("(a+b)*-")]);
     // skips recognised by a late-accept state (the skip ends in a look-ahead assertion)
     add("skip_la_eol", true, vec![s("//[^\n]*(?m:$)").greedy(), r("[a-z]+"), t("\n"), t("/")]);
     add("skip_la_end", true, vec![s("#[a-z]*$"), r("[a-z]+"), t("#").prio(1)]);
